@@ -711,14 +711,8 @@ func (w *World) exec(line string) Result {
 		return Result{Line: "ok " + h}
 	case "setoparams": // votePeriod threshold slashFraction slashWindow maxMiss
 		p := otypes.Params{VotePeriod: u64(f[1]), VoteThreshold: decTok(f[2]), SlashFraction: decTok(f[3]), SlashWindow: u64(f[4]), MaxMissCountPerSlashWindow: u64(f[5])}
-		// a governance proposal is checked key by key by the module's own validators. A value that is out of range on its own is handed to
-		// them (they must refuse it); a set whose values are fine one by one but do not fit together is not proposed at all.
-		half := sdk.NewDecWithPrec(5, 1)
-		outOfRange := p.VotePeriod == 0 || p.VoteThreshold.LT(half) || p.VoteThreshold.GT(sdk.OneDec()) || p.SlashFraction.IsNegative() ||
-			p.SlashFraction.GT(sdk.OneDec()) || p.SlashWindow == 0 || p.MaxMissCountPerSlashWindow == 0
-		if err := p.Validate(); err != nil && !outOfRange {
-			return Result{Line: "err", Detail: err.Error()}
-		}
+		// a governance proposal is checked key by key by the module's own validators, and by nothing else: whatever they let through
+		// is stored - also values that are fine one by one and do not fit together (Params.Validate is not run on this path)
 		am := w.A.LegacyAmino()
 		if err := w.govParams(otypes.ModuleName, map[string]string{
 			string(otypes.KeyVotePeriod): string(am.MustMarshalJSON(p.VotePeriod)), string(otypes.KeyVoteThreshold): string(am.MustMarshalJSON(p.VoteThreshold)),
